@@ -43,7 +43,7 @@ CHECKS = {
              "answer (attribution, default scheme, cost of new hashes, needs_update, the three verify_and_update outcomes, fixed point of "
              "repeated logins, independence of the order in which the lazily built record caches were filled) is compared with an independent "
              "~200-line PolicyModel; costs come from an independent regular-expression field extractor, never from passlib's parsers.",
-        note="<=5 schemes from a 43-scheme cheap palette (incl. {CRYPT}- and bcrypt$-prefixed wrappers), given by name or (one of them, 20% of runs) as a pre-configured hasher object; the 'rounds' option and bcrypt_sha256's version option included, categories admin/staff (+ an unknown one), <=40 ops, well-formed configurations only. "
+        note="In a quarter of the runs the simulated host's crypt(3) knows none of the formats, so the pure-Python backends serve (elsewhere: this image's libcrypt). <=5 schemes from a 43-scheme cheap palette (incl. {CRYPT}- and bcrypt$-prefixed wrappers), given by name or (one of them, 20% of runs) as a pre-configured hasher object; the 'rounds' option and bcrypt_sha256's version option included, categories admin/staff (+ an unknown one), <=40 ops, well-formed configurations only. "
              "Exact vary_rounds ranges are not modelled (only: inside window and hard limits). Trusted: PolicyModel (refmodels/policy.py), extractor.",
         design_ref="DESIGN.md section 4 and Appendix B, C04"),
     "C06": dict(
@@ -74,7 +74,7 @@ CHECKS = {
              "both strings (value-exact, spelling-lenient: hex case, padding bits, '=' padding, blanks/zero padding around decimals, bcrypt "
              "2a/2b/2y, LDAP scheme-name case, and the two equivalences MS-SQL 2000 documents: only the upper-case digest takes part in "
              "verification, and the record's first 54 characters are the MS-SQL 2005 hash of the same password). Thorough: every position x 12 substitute bytes, all deletions, duplications, insertions, truncations per record.",
-        note="Bounded: palette formats only, single faults (15% cumulative); records whose damaged cost field asks for > ~30000 rounds / bcrypt cost > 8 are "
+        note="In a quarter of the runs the simulated host's crypt(3) knows none of the formats, so the pure-Python backends serve (elsewhere: this image's libcrypt). Bounded: palette formats only, single faults (15% cumulative); records whose damaged cost field asks for > ~30000 rounds / bcrypt cost > 8 are "
              "counted but not pushed through verify. The closing clause of C08 (no other spelling of the same bits accepted) is deliberately not enforced.",
         design_ref="DESIGN.md section 4 and Appendix C, C08"),
     "C09": dict(
@@ -106,7 +106,7 @@ CHECKS = {
              "identify / needs_update per category / verify right+wrong on probe hashes at low/middle/high cost, hash() under a pinned random "
              "source) must be identical. Export/import through dict, resolved dict, INI string (two sections), file and copy must preserve the "
              "snapshot; update() must equal a rebuild from the merged dictionary.",
-        note="In 30% of the runs a scheme that takes the context keyword user= (postgres_md5, oracle10, cisco_pix) is configured and every probing call "
+        note="In a quarter of the runs the simulated host's crypt(3) knows none of the formats, so the pure-Python backends serve (elsewhere: this image's libcrypt). In 30% of the runs a scheme that takes the context keyword user= (postgres_md5, oracle10, cisco_pix) is configured and every probing call "
              "carries user=, which the context must keep filtering for the other schemes. "
              "Enumeration is complete per generated (configuration, change) within: <=5 schemes, <=2 categories, the 21 invalid-item kinds, 5 exception "
              "types; configurations themselves are sampled. Upper-case category names do not survive INI (ConfigParser lower-cases) and are outside the domain.",
@@ -176,14 +176,14 @@ CHECKS = {
              "computations of the default scheme counted through a counting subclass given in schemes= (one per call, one more right after "
              "construction or a policy (re)load). Weaker fit: disable/enable are string functions; the simulator supplies histories and the "
              "counting seam.",
-        note="Strings the attribution rule gives to another scheme than the grammar expects ('*' + 40 hex is also mysql41; everything is plaintext) "
+        note="In a quarter of the runs the simulated host's crypt(3) knows none of the formats, so the pure-Python backends serve (elsewhere: this image's libcrypt). Strings the attribution rule gives to another scheme than the grammar expects ('*' + 40 hex is also mysql41; everything is plaintext) "
              "are outside the model: mysql41 is not combined with disabled-account schemes, plaintext schemes are listed last only.",
         design_ref="DESIGN.md section 4, C18"),
     "C19": dict(
         level="exploration",
         technique="deterministic simulation of real threads: seeded baton-passing scheduler pre-empting at sys.settrace line/opcode events (sticky walk, PCT, hot-spot, uniform, park-one-thread-mid-operation), fork-per-run fresh first-use state, cooperative locks; per-thread outcome vs single-thread outcome",
         text="Each run forks a process in which nothing has been used yet, builds one first-use object (LazyCryptContext with/without "
-             "onload or with an onload that fails once, a shipped preset, a multi-backend hasher (in 40% of these runs on a host whose crypt(3) knows none of the formats, so that the first candidate backend is tried and found unusable mid-selection and the pure-Python backends with their lazily built tables are the ones initialised), a lazy base64 engine, an unloaded registry name, a context's record "
+             "onload or with an onload that fails once, a shipped preset, a multi-backend hasher (in 40% of these runs on a host whose crypt(3) knows none of the formats, so that the first candidate backend is tried and found unusable mid-selection and the pure-Python backends with their lazily built tables are the ones initialised; the same host in 30% of the context / registry / preset runs), a lazy base64 engine, an unloaded registry name, a context's record "
              "caches, the digest-info cache, passlib.pwd's word sets, a libpass context, an application's own handler module registered by path "
              "together with a lazy PrefixWrapper around one of its handlers) or an initialised shared context with a "
              "non-reentrant crypt(3) model, and lets 2-3 real "
